@@ -69,6 +69,10 @@ DumpLayout ==
             lay == LayoutGen(Table(m)[name], G)
             z == IF GrammarSane(Table(m)[name]) THEN ZeroFill(lay, r0.bfix, 4) ELSE <<>>
         IN PrintT(ToJson([m |-> m, name |-> name, c |-> c, pbf |-> pbf, ttag |-> ttag,
-                          reachable |-> r0.ok /\ GrammarSane(Table(m)[name]) /\ CountsFit(lay) /\ SelectDefName(m, r0.cls, r0.id, z) = name,
+                          reachable |-> r0.ok /\ GrammarSane(Table(m)[name]) /\ CountsFit(lay)
+                                        /\ LET sel == SelectDefName(m, r0.cls, r0.id, z) IN
+                                           \* (under a variant selector this specification does not know, the entry bearing the message's own name
+                                           \* still counts as reached by a payload laid out exactly as that entry: see UbxWalk!Parse)
+                                           sel = name \/ (sel = "uncovered" /\ Identity(r0.cls, r0.id, z) = name),
                           cls |-> r0.cls, id |-> r0.id, bfix |-> r0.bfix, lay |-> lay.lay, fixes |-> lay.fixes, len |-> lay.len]))
 =============================================================================
